@@ -3,6 +3,7 @@ import CookModel.Lemmas.BuilderFinish
 import CookModel.Lemmas.BuilderLayers
 import CookModel.Lemmas.BuilderDeclared
 import CookModel.Lemmas.BuilderOrderFull
+import CookModel.Lemmas.BuilderAudit
 /-
   C16  Converters built from configuration layers are consistent or rejected.
 
@@ -333,6 +334,160 @@ theorem C16_default_converter :
   | error e => rw [hb] at h; cases h
   | ok conv => exact ⟨conv, rfl, hb⟩
 
+/-! ### Added by the clause audit (notes/audit-C16.md) -/
+
+/-- The extend block of EVERY layer (`C16_precedence_spec` / `C16_extend_order_applies` speak about the last one): in a
+    successful build the blocks of all layers (`b.extend`, in layer order) are applied one after the other, starting from
+    the state `ce` after SI expansion, and each block `g` — whatever comes before (`pre`) and after it (`post`) — is
+    applied to a consistent state `c0` (`Ready`, `SIInv`).  Hence `C16_extend_block_spec` (each entry edits the unit its
+    key resolves to in `c0`, by the block's precedence), `C16_extend_order` and `C16_extend_order_unique` hold for the
+    block of every layer; later blocks then edit the result `c1` in the same way. -/
+theorem C16_every_extend_block {α : Type} [Arith α] (files : List (UnitsFile α)) (conv : Converter α) (h : build files = .ok conv) :
+    ∃ b c ce, buildCore files = .ok (b, c) ∧ conv.units = c.units.map (·.unit) ∧ conv.index = c.index ∧
+      expandAll b.si b.core = .ok ce ∧ b.extend = files.filterMap (·.extend) ∧
+      ∀ pre g post, b.extend = pre ++ g :: post →
+        ∃ c0 c1, Ready c0 ∧ SIInv b.si c0.units ∧ applyExtendGroups b.si pre ce = .ok c0 ∧
+          applyExtendGroup b.si c0 g = .ok c1 ∧ Ready c1 ∧ SIInv b.si c1.units ∧ applyExtendGroups b.si post c1 = .ok c := by
+  obtain ⟨b, c, hbc, _, hp⟩ := (build_good files).of_ok h
+  obtain ⟨_, _, _, ce, hce, hr, hsi, hext, happ⟩ := audit_buildCore_parts files b c hbc
+  refine ⟨b, c, ce, hbc, hp.units, hp.index, hce, hext, ?_⟩
+  intro pre g post hsplit
+  rw [hsplit] at happ
+  exact audit_applyExtendGroups_split b.si pre g post ce c hr hsi happ
+
+/-- Rejection of inconsistent layers: when two different declared units (of the same or of different layers, with or
+    without extend blocks anywhere) share a name, symbol or alias, the build ends with a build error — never a panic,
+    never a converter. -/
+theorem C16_duplicate_declared_rejected {α : Type} [Arith α] (files : List (UnitsFile α)) (i j : Nat) (x y : UnitB α) (k : Key)
+    (hx : (declared files)[i]? = some x) (hy : (declared files)[j]? = some y) (hij : i ≠ j)
+    (hkx : k ∈ x.unit.keys) (hky : k ∈ y.unit.keys) :
+    ∃ e, build files = .error e ∧ e.isPanic = false := by
+  have hg := build_good files
+  cases hb : build files with
+  | error e => rw [hb] at hg; exact ⟨e, rfl, hg⟩
+  | ok conv =>
+    obtain ⟨b, c, hbc, _, _⟩ := hg.of_ok hb
+    obtain ⟨hadd, _, _, _⟩ := audit_buildCore_parts files b c hbc
+    exact absurd (audit_declared_no_shared_key files b hadd i j x y k hx hy hkx hky) hij
+
+/-- Rejection of empty keys: in a successful build every declared unit has at least one key, no key of it is blank
+    (empty or white space only) and no key occurs twice among its names, symbols and aliases.  (Contrapositive: a layer
+    with a unit without keys, with a blank key, or with the same key twice is rejected.) -/
+theorem C16_declared_keys_wellformed {α : Type} [Arith α] (files : List (UnitsFile α)) (conv : Converter α) (h : build files = .ok conv) :
+    ∀ x, x ∈ declared files → x.unit.keys ≠ [] ∧ (∀ k, k ∈ x.unit.keys → isBlankKey k = false) ∧ x.unit.keys.Nodup := by
+  obtain ⟨b, c, hbc, _, _⟩ := (build_good files).of_ok h
+  obtain ⟨hadd, _, _, _⟩ := audit_buildCore_parts files b c hbc
+  intro x hx
+  obtain ⟨h1, h2, h3⟩ := audit_addFiles_keys files _ b hadd x hx
+  exact ⟨h3, h2, h1⟩
+
+/-- Declared units, WITH extend blocks (`C16_declared_resolve` is the case without): the `i`-th declared unit is the
+    `i`-th unit of the converter; it keeps its physical quantity and system whatever the blocks do; every key it ends
+    up with resolves to `i`; and when no extend block of any layer addresses it by one of its keys it is exactly the
+    declared unit. -/
+theorem C16_declared_units {α : Type} [Arith α] (files : List (UnitsFile α)) (conv : Converter α) (h : build files = .ok conv) :
+    ∀ (i : Nat) (x : UnitB α), (declared files)[i]? = some x →
+      ∃ u : Bld.Unit α, conv.units[i]? = some u ∧ u.quantity = x.unit.quantity ∧ u.system = x.unit.system ∧
+        (∀ k, k ∈ u.keys → idxGet conv.index k = some i) ∧
+        ((∀ f g, f ∈ files → f.extend = some g → ∀ ke, ke ∈ g.units → ke.1 ∉ x.unit.keys) → u = x.unit) := by
+  obtain ⟨b, c, hbc, hready, hp⟩ := (build_good files).of_ok h
+  obtain ⟨_, hbok, hunits, ce, hce, hr, _, hext, happ⟩ := audit_buildCore_parts files b c hbc
+  intro i x hx
+  have hplain := hbok.1.2 i x (by rw [hunits]; exact hx)
+  obtain ⟨y, hy, hyu, hyf⟩ := audit_expandAll_kind b.si b.core ce hbok.1 hce i x (by rw [hunits]; exact hx)
+  have hyne : y.isExpanded = false := by rw [hyf]; exact hplain.2
+  obtain ⟨u, hu, hk1, hk2, _⟩ := audit_applyExtendGroups_kind b.si b.extend ce c hr happ i y hy hyne
+  refine ⟨u.unit, by rw [hp.units, List.getElem?_map, hu]; rfl, by rw [hk1, hyu], by rw [hk2, hyu], ?_, ?_⟩
+  · intro k hk
+    rw [hp.index]
+    exact hready.1.complete i u (by simp) hu k hk
+  · intro hfree
+    have hfree' : ∀ g ∈ b.extend, ∀ ke ∈ g.units, ke.1 ∉ y.unit.keys := by
+      intro g hg ke hke
+      rw [hext] at hg
+      obtain ⟨f, hf, hfg⟩ := List.mem_filterMap.mp hg
+      rw [hyu]
+      exact hfree f g hf hfg ke hke
+    have := audit_applyExtendGroups_untouched b.si b.extend ce c hr happ i y hy hyne hfree'
+    rw [hu] at this; cases this
+    exact hyu
+
+/-- The names a best-unit declaration consists of -/
+def Bld.BestDecl.lists : BestDecl → List (List Key)
+  | .unified l => [l]
+  | .bySystem m i => [m, i]
+
+/-- Best lists, members: the store of quantity `q` is built from the declaration of the last group (in layer order)
+    that gives one for `q`; list by list, its units are exactly the units the declared names resolve to in the final
+    index (as a multiset: the list is re-sorted by size), so every declared best name resolves, to a unit of `q`.
+    (Contrapositive: an unknown best name, or one of another physical quantity, is rejected.) -/
+theorem C16_best_members {α : Type} [Arith α] (files : List (UnitsFile α)) (conv : Converter α) (h : build files = .ok conv) :
+    ∀ q s, (q, s) ∈ conv.best → ∃ bd, files.foldl (layerBest q) none = some bd ∧ bd.lists.length = s.lists.length ∧
+      ∀ (n : Nat) (names : List Key) (l : List (α × Nat)), bd.lists[n]? = some names → s.lists[n]? = some l →
+        ((l.map (·.2)).map some).Perm (names.map (idxGet conv.index)) ∧
+        ∀ name, name ∈ names → ∃ id u, idxGet conv.index name = some id ∧ id ∈ l.map (·.2) ∧
+          conv.units[id]? = some u ∧ u.quantity = q := by
+  obtain ⟨b, c, hbc, _, hp⟩ := (build_good files).of_ok h
+  obtain ⟨hadd, _, _, _⟩ := audit_buildCore_parts files b c hbc
+  obtain ⟨_, _, _, _, a5⟩ := addFiles_settings hadd
+  intro q s hqs
+  obtain ⟨bd, h1, hspec⟩ := hp.best (q, s) hqs
+  refine ⟨bd, by have := a5 q; rw [h1] at this; exact this.symm, ?_⟩
+  have hfin : ∀ names l, BestSpec c q names l →
+      ((l.map (·.2)).map some).Perm (names.map (idxGet conv.index)) ∧
+        ∀ name, name ∈ names → ∃ id u, idxGet conv.index name = some id ∧ id ∈ l.map (·.2) ∧
+          conv.units[id]? = some u ∧ u.quantity = q := by
+    intro names l hs
+    have hperm := hs.members
+    rw [hp.index]
+    refine ⟨hperm, ?_⟩
+    intro name hname
+    have hmem : idxGet c.index name ∈ (l.map (·.2)).map some :=
+      hperm.mem_iff.mpr (List.mem_map.mpr ⟨name, hname, rfl⟩)
+    obtain ⟨id, hid, e⟩ := List.mem_map.mp hmem
+    obtain ⟨ent, hent, rfl⟩ := List.mem_map.mp hid
+    obtain ⟨u, hu, hq⟩ := hs.quantity ent hent
+    exact ⟨ent.2, u.unit, e.symm, hid, by rw [hp.units, List.getElem?_map, hu]; rfl, hq⟩
+  cases bd <;> cases s <;> simp only [StoreSpec] at hspec
+  · refine ⟨rfl, ?_⟩
+    intro n names l hn hl
+    cases n with
+    | zero => simp [BestDecl.lists, BestStore.lists] at hn hl; subst hn; subst hl; exact hfin _ _ hspec
+    | succ n => simp [BestDecl.lists] at hn
+  · refine ⟨rfl, ?_⟩
+    intro n names l hn hl
+    match n with
+    | 0 => simp [BestDecl.lists, BestStore.lists] at hn hl; subst hn; subst hl; exact hfin _ _ hspec.1
+    | 1 => simp [BestDecl.lists, BestStore.lists] at hn hl; subst hn; subst hl; exact hfin _ _ hspec.2
+    | n + 2 => simp [BestDecl.lists] at hn
+
+/-- Fraction settings OF THE CONVERTER (`C16_fraction_layers` reads the folds; this ties them to the result): the
+    fraction layers are those of the files, in layer order; `all` / `metric` / `imperial` and the per-quantity table are
+    the last-layer-wins folds, completed with the defaults (`FracH.define`); every key of every layer's `unit` table
+    resolves in the final index (an unknown key is a build error), and the per-unit table has an entry exactly for the
+    units some layer names. -/
+theorem C16_fractions {α : Type} [Arith α] (files : List (UnitsFile α)) (conv : Converter α) (h : build files = .ok conv) :
+    ∃ layers, layers = files.filterMap (·.fractions) ∧
+      conv.fractions.all = (lastLayer (·.all) layers none).map FracH.define ∧
+      conv.fractions.metric = (lastLayer (·.metric) layers none).map FracH.define ∧
+      conv.fractions.imperial = (lastLayer (·.imperial) layers none).map FracH.define ∧
+      (∀ q, conv.fractions.quantity q = (quantityLayers layers (fun _ => none) q).map FracH.define) ∧
+      (∀ f, f ∈ layers → ∀ kw, kw ∈ f.unit → ∃ id u, idxGet conv.index kw.1 = some id ∧ conv.units[id]? = some u) ∧
+      (∀ id, (Bld.mapGet conv.fractions.unit id).isSome = true ↔ ∃ f, f ∈ layers ∧ ∃ kw, kw ∈ f.unit ∧ idxGet conv.index kw.1 = some id) := by
+  obtain ⟨b, c, hbc, _, hp⟩ := (build_good files).of_ok h
+  obtain ⟨b', c', hbc', hfr⟩ := audit_build_fractions files conv h
+  rw [hbc] at hbc'; cases hbc'
+  obtain ⟨hadd, _, _, _⟩ := audit_buildCore_parts files b c hbc
+  obtain ⟨_, a2, _⟩ := addFiles_settings hadd
+  obtain ⟨f1, f2, f3, f4, f5, f6⟩ := audit_buildFractions_spec c b.fractions conv.fractions hfr
+  have hl : b.fractions = files.filterMap (·.fractions) := by rw [a2]; simp [Builder.empty]
+  refine ⟨b.fractions, hl, f1, f2, f3, f4, ?_, ?_⟩
+  · intro f hf kw hkw
+    obtain ⟨id, u, h1, h2⟩ := f5 f hf kw hkw
+    exact ⟨id, u.unit, by rw [hp.index]; exact h1, by rw [hp.units, List.getElem?_map, h2]; rfl⟩
+  · intro id
+    rw [f6 id, hp.index]
+
 /-! ### Non-vacuity: concrete layer stacks over exact rationals -/
 
 namespace C16Examples
@@ -412,6 +567,29 @@ example : errOf (build [base, wrongBest]) = some (.bestUnitQuantity ['g'] .volum
 example : errOf (build [base, base]) = some (.duplicateUnit ['g','r','a','m']) := by decide +kernel
 -- rejected: no best units for a quantity
 example : errOf (build [{ base with quantity := base.quantity.drop 1 }]) = some (.emptyBest .mass true) := by decide +kernel
+
+-- audit additions
+-- hypotheses of `C16_duplicate_declared_rejected`: declared units 0 and 5 of [base, base] are both `gram`
+example : ((declared [base, base])[0]?.map (·.unit.names), (declared [base, base])[5]?.map (·.unit.names))
+    = (some [['g','r','a','m']], some [['g','r','a','m']]) := by decide +kernel
+-- rejected: a unit whose only key is blank / a unit without keys
+example : errOf (build [{ base with quantity := [one .mass [' '] [] 1 false [[' ']]] }]) = some .emptyUnitKey := by decide +kernel
+def noKeys : QuantityGroup Rat :=
+  { quantity := .mass, best := none,
+    units := some (.unified [{ names := [], symbols := [], aliases := [], ratio := 1, difference := 0, expandSi := false }]) }
+example : errOf (build [{ base with quantity := [noKeys] }]) = some .emptyUnit := by decide +kernel
+-- `C16_declared_units`: no entry of the Spanish block addresses `liter`, which stays as declared (unit 1)
+example : unitAt (build [base, spanish]) 1 = some ([['l','i','t','e','r']], [['l']], [], 1) := by decide +kernel
+-- rejected: a best name that is no unit (`C16_best_members`)
+example : errOf (build [base, { wrongBest with quantity := [{ quantity := .volume, best := some (.unified [['x']]), units := none }] }])
+    = some (.unknownUnit ['x']) := by decide +kernel
+-- `C16_fractions`: `all` from the layer, a per-unit entry for `g` (unit 0); an unknown unit key is rejected
+def withFractions (k : Key) : UnitsFile Rat :=
+  { base with fractions := some { all := some (.toggle true), metric := none, imperial := none,
+                                  quantity := [(.mass, .toggle false)], unit := [(k, .toggle true)] } }
+example : (build [withFractions ['g']]).toOption.map (fun c => (c.fractions.all.map (·.enabled), c.fractions.unit.map (·.1),
+    (c.fractions.quantity .mass).map (·.enabled))) = some (some true, [0], some false) := by decide +kernel
+example : errOf (build [withFractions ['x']]) = some (.unknownUnit ['x']) := by decide +kernel
 
 end C16Examples
 
